@@ -221,6 +221,7 @@ class Interp:
         self.max_steps = 2_000_000
         self.steps = 0
         self.fn_stack = []
+        self.env_stack = []
         from . import pybuiltins, npmodel
         pybuiltins.install(self)
         npmodel.install(self)
@@ -1307,6 +1308,7 @@ class Interp:
         if self.call_depth > 200:
             raise Unsupported("recursion depth exceeded")
         self.fn_stack.append(fn)
+        self.env_stack.append(env)
         try:
             if isinstance(node, ast.Lambda):
                 return self.eval(node.body, env)
@@ -1317,6 +1319,7 @@ class Interp:
             return None
         finally:
             self.fn_stack.pop()
+            self.env_stack.pop()
             self.call_depth -= 1
 
     def run(self, fn, args, kwargs=None):
